@@ -325,6 +325,17 @@ func normalize(cs Case) Case {
 		}
 		cs.Ops = ops
 	}
+	// the reconcile loop only runs in mode "remote" with a client set (EnsureReconcile): no rounds, no restarts otherwise
+	if cs.Cfg.RateLimiter != "remote" || !cs.Cfg.HasCS {
+		var ops []Op
+		for _, o := range cs.Ops {
+			if o.Op == "reconcile" || o.Op == "answer" || o.Op == "restart" {
+				continue
+			}
+			ops = append(ops, o)
+		}
+		cs.Ops = ops
+	}
 	// a token bucket's admissions depend on the wall clock: requests are held only in max-in-flight cases
 	tbCase := cs.KindChange
 	for _, o := range cs.Ops {
@@ -461,7 +472,12 @@ func runImpl(c *rig.Ctx, cs Case, rnd func(int) int) (res runResult) {
 	}
 
 	msg, panicked := rig.Recover(func() {
-		ul = flowcontrols.NewUpstreamLimiter(ctx, cluster, cs.Cfg.RateLimiter, csArg)
+		// as a deployment does (pkg/clusters): constructed with "", the mode is set by ResetLimiter — which starts the
+		// real reconcile loop for "remote". The loop polls IsReady every 500 ms before its first round and the harness
+		// performs the rounds itself (deterministically), but only while the real loop is ALIVE.
+		ul = flowcontrols.NewUpstreamLimiter(ctx, cluster, "", csArg)
+		ul.ResetLimiter(cs.Cfg.RateLimiter)
+		loopAlive := func() bool { return remote.VerifLoopAlive(flowcontrols.VerifReconcile(ul)) }
 		for _, op := range cs.Ops {
 			heldRemote = 0
 			switch op.Op {
@@ -497,14 +513,25 @@ func runImpl(c *rig.Ctx, cs Case, rnd func(int) int) (res runResult) {
 				}
 				infoMu.Unlock()
 				clientsets.VerifSync(bare)
+			case "restart":
+				// the mode is switched away and back: the reconcile loop's SECOND start. Only while the server is not
+				// ready (a loop started while it is ready runs a round at once, asynchronously).
+				if !bare.IsReady(cluster) {
+					ul.ResetLimiter("local")
+					ul.ResetLimiter(cs.Cfg.RateLimiter)
+				}
 			case "reconcile":
-				remote.VerifUpdateGlobalCount(cluster, ul.AllFlowControls())
+				if loopAlive() {
+					remote.VerifUpdateGlobalCount(cluster, ul.AllFlowControls())
+				}
 			case "answer":
 				name := fcName
 				if !op.Named {
 					name = "some-other-schema"
 				}
-				remote.VerifUpdateFlowControls(cluster, ul.AllFlowControls(), []proxyv1alpha1.RateLimitItemConfiguration{op.Item.api(name)})
+				if loopAlive() {
+					remote.VerifUpdateFlowControls(cluster, ul.AllFlowControls(), []proxyv1alpha1.RateLimitItemConfiguration{op.Item.api(name)})
+				}
 			case "meter":
 				pendingMax, pendingRate = i32(op.Max), float64(op.RateNum)/float64(op.RateDen)
 				if cache != nil {
